@@ -217,13 +217,17 @@ class sptenmat:
         vals = None
         if isinstance(array, np.ndarray):
             vals = np.expand_dims(array[array.nonzero()], axis=1)
+            subs = np.vstack(array.nonzero()).transpose()
         elif sparse.issparse(array):
-            vals = np.expand_dims(array.tocoo(False).data, axis=1)
+            # Values and subscripts from the same coordinate form (the stored
+            # order depends on the sparse format)
+            coo = array.tocoo(False)
+            vals = np.expand_dims(coo.data, axis=1)
+            subs = np.vstack((coo.row, coo.col)).transpose()
         else:
             raise ValueError(
                 f"Expected sparse matrix or array but received: {type(array)}"
             )
-        subs = np.vstack(array.nonzero()).transpose()
         return ttb.sptenmat(subs, vals, rdims, cdims, tshape)
 
     @property
